@@ -162,6 +162,20 @@ impl<'a> ZoneHydrator<'a> {
                     );
                 }
             }
+
+            // Zones produced by index/pruner paths carry no UID, while "all zones" fallbacks
+            // (e.g. a segment whose files are missing or still being flushed) do. In such a
+            // mixed set the UID-less zones must still be hydrated, otherwise the rows of
+            // healthy segments are silently dropped.
+            if candidate_zones.iter().any(|z| z.uid().is_none()) {
+                if let Some(uid) = self.plan.event_type_uid().await {
+                    let loader = ZoneValueLoader::new(self.plan.segment_base_dir.clone(), uid)
+                        .with_caches(self.caches);
+                    for zone in candidate_zones.iter_mut().filter(|z| z.uid().is_none()) {
+                        loader.load_zone_values(std::slice::from_mut(zone), &columns);
+                    }
+                }
+            }
         }
 
         if tracing::enabled!(tracing::Level::DEBUG) {
